@@ -42,6 +42,14 @@ theorem sched_runs_bounded (s s' : SSys) (ls : List SLabel) (hl : ∀ l ∈ ls, 
     ls.length + mu s' ≤ mu s :=
   sched_run_bounded ls s s' hl h
 
+/-- With terminal input arriving at any moments: the number of scheduler steps of a run is at most
+the variant of its start plus the cost of the input that arrived during it — however the arrivals are
+interleaved, finitely much input gives only finite runs ("every interleaving with incoming input"). -/
+theorem runs_bounded_with_input (s s' : SSys) (ls : List SLabel)
+    (hl : ∀ l ∈ ls, l.sched = true ∨ ∃ u, l = .termInput u) (h : srun s ls = some s') :
+    schedCount ls + mu s' ≤ mu s + inputCost ls :=
+  run_bounded_with_input ls s s' hl h
+
 /-- … and rest is reachable: some schedule of at most `mu s` steps leads to a state of rest. -/
 theorem rest_reachable (s : SSys) :
     ∃ ls s', (∀ l ∈ ls, l.sched = true) ∧ srun s ls = some s' ∧ s'.quiescent = true :=
